@@ -556,4 +556,289 @@ theorem cgHistory2_eq (o1 o2 : CGObj ℝ) (cs : List (Bool × CGCall ℝ)) :
     | true => simp only [cgHistory2, cgCall, ih, List.map_cons, if_true]
     | false => simp only [cgHistory2, cgCall, ih, List.map_cons, Bool.false_eq_true, if_false]
 
+section tsvd
+variable {m n r : ℕ}
+
+/-- kept singular values `σ > cut`, others replaced by `0` -/
+noncomputable def svKeep (σ : Fin r → ℝ) (cut : ℝ) : Fin r → ℝ := fun i => if cut < σ i then σ i else 0
+/-- reciprocals of the kept singular values, `0` for the discarded ones -/
+noncomputable def svInv (σ : Fin r → ℝ) (cut : ℝ) : Fin r → ℝ := fun i => if cut < σ i then (σ i)⁻¹ else 0
+/-- indicator of the kept indices -/
+noncomputable def svProj (σ : Fin r → ℝ) (cut : ℝ) : Fin r → ℝ := fun i => if cut < σ i then 1 else 0
+
+theorem svKeep_mul_svInv (σ : Fin r → ℝ) (cut : ℝ) (hc : 0 ≤ cut) :
+    diagonal (svKeep σ cut) * diagonal (svInv σ cut) = diagonal (svProj σ cut) := by
+  rw [diagonal_mul_diagonal]
+  congr 1
+  funext i
+  unfold svKeep svInv svProj
+  by_cases h : cut < σ i
+  · have : σ i ≠ 0 := by linarith
+    simp [h, this]
+  · simp [h]
+
+theorem svInv_mul_svKeep (σ : Fin r → ℝ) (cut : ℝ) (hc : 0 ≤ cut) :
+    diagonal (svInv σ cut) * diagonal (svKeep σ cut) = diagonal (svProj σ cut) := by
+  rw [diagonal_mul_diagonal]
+  congr 1
+  funext i
+  unfold svKeep svInv svProj
+  by_cases h : cut < σ i
+  · have : σ i ≠ 0 := by linarith
+    simp [h, this]
+  · simp [h]
+
+theorem svProj_mul_svKeep (σ : Fin r → ℝ) (cut : ℝ) :
+    diagonal (svProj σ cut) * diagonal (svKeep σ cut) = diagonal (svKeep σ cut) := by
+  rw [diagonal_mul_diagonal]
+  congr 1
+  funext i
+  unfold svKeep svProj
+  by_cases h : cut < σ i <;> simp [h]
+
+theorem svProj_mul_svInv (σ : Fin r → ℝ) (cut : ℝ) :
+    diagonal (svProj σ cut) * diagonal (svInv σ cut) = diagonal (svInv σ cut) := by
+  rw [diagonal_mul_diagonal]
+  congr 1
+  funext i
+  unfold svInv svProj
+  by_cases h : cut < σ i <;> simp [h]
+
+/-- `(X D Yᵀ)(Y E Zᵀ) = X (D E) Zᵀ` when `Y` has orthonormal columns -/
+theorem sandwich {a b c : ℕ} (X : Matrix (Fin a) (Fin r) ℝ) (Y : Matrix (Fin b) (Fin r) ℝ) (Z : Matrix (Fin c) (Fin r) ℝ)
+    (D E : Matrix (Fin r) (Fin r) ℝ) (hY : Yᵀ * Y = 1) :
+    (X * D * Yᵀ) * (Y * E * Zᵀ) = X * (D * E) * Zᵀ := by
+  calc (X * D * Yᵀ) * (Y * E * Zᵀ) = X * D * (Yᵀ * Y) * E * Zᵀ := by simp only [Matrix.mul_assoc]
+    _ = X * (D * E) * Zᵀ := by rw [hY]; simp only [Matrix.mul_assoc, Matrix.mul_one]
+
+/-- **Truncated-SVD law**: from ANY singular value decomposition `A = U Σ Vᵀ` (orthonormal columns) and any cut-off
+`≥ 0`, the matrix `P = V Σ⁺_cut Uᵀ` (reciprocals of the singular values above the cut-off, zero for the others) is THE
+Moore–Penrose inverse of the truncated matrix `A_cut = U Σ_cut Vᵀ`. -/
+theorem tsvd_isPinv (U : Matrix (Fin m) (Fin r) ℝ) (V : Matrix (Fin n) (Fin r) ℝ) (σ : Fin r → ℝ) (cut : ℝ)
+    (hU : Uᵀ * U = 1) (hV : Vᵀ * V = 1) (hc : 0 ≤ cut) :
+    IsPinv (U * diagonal (svKeep σ cut) * Vᵀ) (V * diagonal (svInv σ cut) * Uᵀ) := by
+  have hAP : (U * diagonal (svKeep σ cut) * Vᵀ) * (V * diagonal (svInv σ cut) * Uᵀ) = U * diagonal (svProj σ cut) * Uᵀ := by
+    rw [sandwich U V U _ _ hV, svKeep_mul_svInv σ cut hc]
+  have hPA : (V * diagonal (svInv σ cut) * Uᵀ) * (U * diagonal (svKeep σ cut) * Vᵀ) = V * diagonal (svProj σ cut) * Vᵀ := by
+    rw [sandwich V U V _ _ hU, svInv_mul_svKeep σ cut hc]
+  refine ⟨?_, ?_, ?_, ?_⟩
+  · rw [hAP, sandwich U U V _ _ hU, svProj_mul_svKeep]
+  · rw [hPA, sandwich V V U _ _ hV, svProj_mul_svInv]
+  · rw [hAP]
+    simp only [transpose_mul, diagonal_transpose, Matrix.mul_assoc]
+    rfl
+  · rw [hPA]
+    simp only [transpose_mul, diagonal_transpose, Matrix.mul_assoc]
+    rfl
+
+/-- if every discarded singular value is zero (cut-off below the smallest non-zero one) nothing is truncated -/
+theorem tsvd_no_truncation (U : Matrix (Fin m) (Fin r) ℝ) (V : Matrix (Fin n) (Fin r) ℝ) (σ : Fin r → ℝ) (cut : ℝ)
+    (h0 : ∀ i, ¬ cut < σ i → σ i = 0) :
+    U * diagonal (svKeep σ cut) * Vᵀ = U * diagonal σ * Vᵀ := by
+  have : svKeep σ cut = σ := by
+    funext i
+    unfold svKeep
+    by_cases h : cut < σ i
+    · simp [h]
+    · simp [h0 i h]
+  rw [this]
+
+end tsvd
+
+/-- the model's `pinvOfSvd` is `V Σ⁺_cut Uᵀ` -/
+theorem toMat_pinvOfSvd (m n r : Nat) (U V : Nat → Nat → ℝ) (σ : Nat → ℝ) (cut : ℝ) :
+    toMat n m (pinvOfSvd r U V σ cut)
+      = toMat n r V * diagonal (svInv (toVec r σ) cut) * (toMat m r U)ᵀ := by
+  funext i j
+  rw [Matrix.mul_apply]
+  simp only [Matrix.mul_diagonal, transpose_apply, toMat, svInv, toVec, pinvOfSvd, sumN_eq]
+  rw [Finset.sum_range]
+  apply Finset.sum_congr rfl
+  intro t _
+  simp only [lt_real, k_real, Nat.cast_one, Nat.cast_zero, decide_eq_true_eq]
+  by_cases h : cut < σ t <;> simp [h]
+
+theorem smax_real (x y : ℝ) : smax x y = max x y := by
+  unfold smax
+  simp only [lt_real]
+  by_cases h : x < y
+  · simp [h, max_eq_right (le_of_lt h)]
+  · simp [h, max_eq_left (not_lt.mp h)]
+
+theorem pinvCutoff_nonneg (atol rtol : Option ℝ) (m n : Nat) (eps s1 : ℝ)
+    (ha : ∀ a, atol = some a → 0 ≤ a) : 0 ≤ pinvCutoff atol rtol m n eps s1 := by
+  unfold pinvCutoff
+  simp only [smax_real]
+  apply le_max_of_le_left
+  cases atol with
+  | none => simp
+  | some a => exact ha a rfl
+
+/-- the tolerance defaulting of `torch.linalg.pinv`, case by case -/
+theorem pinvCutoff_cases (m n : Nat) (eps s1 a r : ℝ) :
+    pinvCutoff none none m n eps s1 = max 0 ((max m n : ℕ) * eps * s1) ∧
+    pinvCutoff none (some r) m n eps s1 = max 0 (r * s1) ∧
+    (0 < a → pinvCutoff (some a) none m n eps s1 = a) ∧
+    (a ≤ 0 → pinvCutoff (some a) none m n eps s1 = max a ((max m n : ℕ) * eps * s1)) ∧
+    pinvCutoff (some a) (some r) m n eps s1 = max a (r * s1) := by
+  refine ⟨?_, ?_, ?_, ?_, ?_⟩
+  · unfold pinvCutoff; simp [smax_real]
+  · unfold pinvCutoff; simp [smax_real]
+  · intro ha
+    unfold pinvCutoff
+    simp [smax_real, ha, le_of_lt ha]
+  · intro ha
+    unfold pinvCutoff
+    simp [smax_real, not_lt.mpr ha]
+  · unfold pinvCutoff; simp [smax_real]
+
+theorem isPinv_minnorm {m n : ℕ} (A : Matrix (Fin m) (Fin n) ℝ) (P : Matrix (Fin n) (Fin m) ℝ) (b : Fin m → ℝ)
+    (hP : IsPinv A P) :
+    (∀ y, nrm2 (A *ᵥ (P *ᵥ b) - b) ≤ nrm2 (A *ᵥ y - b)) ∧
+    (∀ y, Aᵀ *ᵥ (A *ᵥ y - b) = 0 → nrm2 (P *ᵥ b) ≤ nrm2 y ∧ (nrm2 y = nrm2 (P *ᵥ b) → y = P *ᵥ b)) := by
+  have hn := penrose_normal A P b hP.h1 hP.h3
+  have hr := penrose_range A P b hP.h2 hP.h4
+  exact ⟨ls_certificate _ _ _ hn, fun y hy => minnorm_certificate _ _ _ _ hn hr y hy⟩
+
+/-! ## the loop of `CG.forward` as "first pass at which the stopping test holds, or the budget" -/
+
+theorem cgIter_shift (n : Nat) (A : Nat → Nat → ℝ) (M : Option (Nat → Nat → ℝ)) (s : CGState ℝ) (k : Nat) :
+    cgIter n A M (cgStep n A M s) k = cgIter n A M s (k+1) := by
+  induction k with
+  | zero => rfl
+  | succ k ih => rw [cgIter, ih]; rfl
+
+theorem cgIter_stopped (n : Nat) (A : Nat → Nat → ℝ) (M : Option (Nat → Nat → ℝ)) (s : CGState ℝ) (hs : s.stopped = false)
+    (k : Nat) : (cgIter n A M s k).stopped = false := by
+  cases k with
+  | zero => exact hs
+  | succ k => rfl
+
+/-- **The loop, completely**: started from a state `s`, with a budget of `fuel` passes, the loop returns the state after
+`k ≤ fuel` unconditional passes, where `k` is the FIRST index at which the stopping test `‖r‖ < atol` holds — or `fuel` if
+it never holds among the states `0 … fuel-1` (the state after the last pass is returned untested). -/
+theorem cgLoop_spec (n : Nat) (A : Nat → Nat → ℝ) (M : Option (Nat → Nat → ℝ)) (atol : ℝ) :
+    ∀ (fuel : Nat) (s : CGState ℝ), s.stopped = false →
+      ∃ k, k ≤ fuel ∧
+        cgLoop n A M atol fuel s = { cgIter n A M s k with stopped := (cgLoop n A M atol fuel s).stopped } ∧
+        (∀ j, j < k → ¬ norm n (cgIter n A M s j).r.get < atol) ∧
+        ((cgLoop n A M atol fuel s).stopped = true → k < fuel ∧ norm n (cgIter n A M s k).r.get < atol) ∧
+        ((cgLoop n A M atol fuel s).stopped = false → k = fuel) := by
+  intro fuel
+  induction fuel with
+  | zero =>
+    intro s hs
+    refine ⟨0, le_refl 0, ?_, fun j hj => by omega, ?_, fun _ => rfl⟩
+    · simp only [cgLoop, cgIter]
+    · intro h; simp only [cgLoop] at h; rw [hs] at h; cases h
+  | succ f ih =>
+    intro s hs
+    by_cases ht : Scalar.lt (norm n s.r.get) atol = true
+    · have e : cgLoop n A M atol (f+1) s = { s with stopped := true } := by
+        rw [cgLoop, if_pos ht]
+      refine ⟨0, Nat.zero_le _, ?_, fun j hj => by omega, ?_, ?_⟩
+      · rw [e]; rfl
+      · intro _
+        refine ⟨Nat.succ_pos f, ?_⟩
+        show norm n s.r.get < atol
+        simpa using ht
+      · intro h; rw [e] at h; cases h
+    · have e : cgLoop n A M atol (f+1) s = cgLoop n A M atol f (cgStep n A M s) := by
+        rw [cgLoop, if_neg ht]
+      obtain ⟨k, hk, heq, hmin, hstop, hbud⟩ := ih (cgStep n A M s) rfl
+      refine ⟨k+1, by omega, ?_, ?_, ?_, ?_⟩
+      · rw [e, ← cgIter_shift]; exact heq
+      · intro j hj
+        cases j with
+        | zero =>
+          show ¬ norm n s.r.get < atol
+          simpa using ht
+        | succ j => rw [← cgIter_shift]; exact hmin j (by omega)
+      · intro h; rw [e] at h; rw [← cgIter_shift]; exact ⟨by have := (hstop h).1; omega, (hstop h).2⟩
+      · intro h; rw [e] at h; rw [hbud h]
+
+/-- the stopping decision and the returned values depend only on the values of the state on the indices `< n` -/
+theorem cgForward_spec (n : Nat) (tol : ℝ) (maxiter : Option Nat) (A : Nat → Nat → ℝ) (b : Nat → ℝ)
+    (x0 : Option (Nat → ℝ)) (M : Option (Nat → Nat → ℝ)) (hb : 0 < norm n b) :
+    ∃ k, k ≤ cgBudget n maxiter ∧
+      cgForward n tol maxiter A b x0 M =
+        { cgIter n A M (cgInit n A b x0) k with stopped := (cgForward n tol maxiter A b x0 M).stopped } ∧
+      (∀ j, j < k → ¬ norm n (cgIter n A M (cgInit n A b x0) j).r.get < tol * norm n b) ∧
+      ((cgForward n tol maxiter A b x0 M).stopped = true →
+        k < cgBudget n maxiter ∧ norm n (cgIter n A M (cgInit n A b x0) k).r.get < tol * norm n b) ∧
+      ((cgForward n tol maxiter A b x0 M).stopped = false → k = cgBudget n maxiter) := by
+  rw [cgForward_pos _ _ _ _ _ _ _ hb]
+  exact cgLoop_spec n A M (tol * norm n b) (cgBudget n maxiter) (cgInit n A b x0) rfl
+
+/-- the identity matrix as an index function -/
+def idMat : Nat → Nat → ℝ := fun i j => if i = j then 1 else 0
+
+theorem toMat_idMat (n : Nat) : toMat n n idMat = 1 := by
+  funext i j
+  simp only [toMat, idMat, Matrix.one_apply, Fin.ext_iff]
+
+/-- after any number of passes, `M = None` and `M = identity` give the same iterate and residual -/
+theorem cgIter_M_identity (n : Nat) (A : Nat → Nat → ℝ) (b : Nat → ℝ) (x0 : Option (Nat → ℝ)) (k : Nat) :
+    toVec n (cgIter n A none (cgInit n A b x0) k).x.get = toVec n (cgIter n A (some idMat) (cgInit n A b x0) k).x.get ∧
+    toVec n (cgIter n A none (cgInit n A b x0) k).r.get = toVec n (cgIter n A (some idMat) (cgInit n A b x0) k).r.get := by
+  have h1 := cgIter_rel n A none b x0 k
+  have h2 := cgIter_rel n A (some idMat) b x0 k
+  have e : precMat n (some idMat) = precMat n none := by
+    simp only [precMat, toMat_idMat]
+  rw [e] at h2
+  exact ⟨h1.1.trans h2.1.symm, h1.2.1.trans h2.2.1.symm⟩
+
+theorem norm_toVec_congr (n : Nat) (u v : Nat → ℝ) (h : toVec n u = toVec n v) : norm n u = norm n v :=
+  norm_congr n u v fun i hi => by
+    have := congrFun h ⟨i, hi⟩
+    simpa [toVec] using this
+
+/-- **`M = None` is the identity preconditioner**: same stopping decision, same number of passes, same returned `x`. -/
+theorem cgForward_M_identity (n : Nat) (tol : ℝ) (maxiter : Option Nat) (A : Nat → Nat → ℝ) (b : Nat → ℝ)
+    (x0 : Option (Nat → ℝ)) :
+    (cgForward n tol maxiter A b x0 none).stopped = (cgForward n tol maxiter A b x0 (some idMat)).stopped ∧
+    (cgForward n tol maxiter A b x0 none).iter = (cgForward n tol maxiter A b x0 (some idMat)).iter ∧
+    ∀ i, i < n → (cgForward n tol maxiter A b x0 none).x.get i = (cgForward n tol maxiter A b x0 (some idMat)).x.get i := by
+  by_cases hb : 0 < norm n b
+  · obtain ⟨k1, hk1, e1, m1, s1, f1⟩ := cgForward_spec n tol maxiter A b x0 none hb
+    obtain ⟨k2, hk2, e2, m2, s2, f2⟩ := cgForward_spec n tol maxiter A b x0 (some idMat) hb
+    have T : ∀ j, norm n (cgIter n A none (cgInit n A b x0) j).r.get
+        = norm n (cgIter n A (some idMat) (cgInit n A b x0) j).r.get :=
+      fun j => norm_toVec_congr n _ _ (cgIter_M_identity n A b x0 j).2
+    have hk : k1 = k2 := by
+      rcases Nat.lt_trichotomy k1 k2 with h | h | h
+      · exfalso
+        have hn := m2 k1 h
+        rw [← T] at hn
+        cases hst : (cgForward n tol maxiter A b x0 none).stopped with
+        | true => exact hn (s1 hst).2
+        | false => have := f1 hst; omega
+      · exact h
+      · exfalso
+        have hn := m1 k2 h
+        rw [T] at hn
+        cases hst : (cgForward n tol maxiter A b x0 (some idMat)).stopped with
+        | true => exact hn (s2 hst).2
+        | false => have := f2 hst; omega
+    subst hk
+    have hstop : (cgForward n tol maxiter A b x0 none).stopped = (cgForward n tol maxiter A b x0 (some idMat)).stopped := by
+      cases h1 : (cgForward n tol maxiter A b x0 none).stopped with
+      | true =>
+        cases h2 : (cgForward n tol maxiter A b x0 (some idMat)).stopped with
+        | true => rfl
+        | false => have := (s1 h1).1; have := f2 h2; omega
+      | false =>
+        cases h2 : (cgForward n tol maxiter A b x0 (some idMat)).stopped with
+        | false => rfl
+        | true => have := (s2 h2).1; have := f1 h1; omega
+    refine ⟨hstop, ?_, ?_⟩
+    · rw [e1, e2]
+      simp only [cgIter_iter]
+    · intro i hi
+      rw [e1, e2]
+      have := congrFun (cgIter_M_identity n A b x0 k1).1 ⟨i, hi⟩
+      simpa [toVec] using this
+  · rw [cgForward_zero' _ _ _ _ _ _ _ hb, cgForward_zero' _ _ _ _ _ _ _ hb]
+    exact ⟨rfl, rfl, fun _ _ => rfl⟩
+
 end PP.LinSolve
